@@ -34,12 +34,16 @@ type Harness struct {
 	shapes  map[string]int
 	curMV   *modelVerdict // the model's prediction for the crash point being judged (model-compared workloads, client mode)
 	curLib  string        // miss3.go libExpect of the directory being judged (library mode): "" = not computed
+	curWin  bool          // library mode: an undo file under the snapshot's block of the captured directory names another block
 	lockAns map[string]string
 	idxAns  map[string]string // miss4.go: answers of the oracle op idx (many captures hold the same index)
+	// torn.go: the replay case / the description judge2 reports for a report that is not a plain (workload, hit, mode) case
+	caseOverride  *Case
+	whereOverride string
 }
 
 func (h *Harness) explanation() string {
-	return "Round-4 pass (miss4.go; workloads of several kinds are in flight at a time: the fresh processes of one workload run while the next one is driven in-process, reports are judged in workload order): flag-rewrite workloads (the flag byte of an index record that is already ON DISK is rewritten: a side branch is stored aside, flushed by Chain.Idle and only then overtakes the tip - its records become trusted while the reorganisation applies them, or one of its blocks spends an output that does not exist and the records of the rest of the branch are flagged invalid; crossed with one / several data files (MaxDataFileSize 340..700), 1-3 further blocks stored behind the rewritten records, a clean shutdown + restart inside the history in library or client mode, 1-3 blocks appended by the restarted node, a second restart; every point a crash point) and close-relation workloads (a clean shutdown while the tip is another block of the SAME height as the block of UTXO.db - blocks undone by the operator, as many others accepted - or one higher on another branch - one more block, or a reorganisation while Idle may not save -, followed by a restart inside the history); after EVERY clean shutdown inside a history of any workload (ops restart = library mode, crestart = client mode incl. the recovery loop) the restarted node must be in exactly the state before the shutdown (key clean-restart-differs). Ties with Model/PersistIdx.lean (facts flagRewriteSource / invalidRecordAdvances / closeSaveGuard regenerated from setBlockFlag / LoadBlockIndex / UnspentDB.Close): index tie (between consecutive captures of every workload the index file changes by appended records and gained flag bits only == oracle op idx), load-positions tie (what the REAL LoadBlockIndex computed in every client-mode fresh process - append position, ipos and data file of every record, read through lib/chain/verif_export_c07.go - == the positions of the records in the captured file == the model's load), close tie (block and height before every clean shutdown inside a close-relation history and after the restart == oracle op closeg). Round-3 pass (miss3.go): operator-undo workloads (Chain.UndoLastBlock called directly, as the text-UI command `undo` and NewChainExt's -undo loop do: while a paced snapshot waits after its first chunk at the beginning of its walk, while none is active, at start-up between two clean shutdowns), stale-sibling workloads (blocks stored aside because they are not higher than the tip are on disk at every crash point and at clean shutdowns inside the history; every capture re-opened in client AND library mode; the library-mode process does 3 further clean Close + NewChainExt cycles before anything is fed; the closed directories are re-opened by fresh processes in both modes), the node process holds <datadir>/.lock through sys.LockDatabaseDir / UnlockDatabaseDir exactly like the client and every client-mode fresh process starts with the real LockDatabaseDir; snapshot-file tie (every UTXO.db / UTXO.old of every capture parsed independently: record count == header, txid set == replay of the header's block), library tie (oracle op libopen == library-mode fresh process) and lock tie (oracle op lock) with Model/PersistLib.lean whose parameters are regenerated from the source (go/cmd/gen_c07). Added after the audit: (i) truncations of UTXO.db after a clean close (inside the 48-byte header, right after it, inside and at the end of the record area; with and without UTXO.old) re-opened by a fresh process under a 20 s watchdog - NewUnspentDb must fall back to UTXO.old / start from genesis and the recovery loop must converge (fix eab07278: it hung with an intact header and a short record area); compared with the model's tearDb + restartFrom (oracle op torn, theorem torn_snapshot_reopens); a fall-back onto a snapshot of the abandoned branch is the known finding's window. (ii) bulk workload threshold-flush (bulk.go): 1024 blocks queued without an Idle so that BlockDB.BlockAdd flushes synchronously INSIDE Chain.CommitBlock (asserted: 1024 index records written between chain.commit:before-blockadd and :after-blockadd); crash points inside and after the flush are SAMPLED (not exhaustive), predicate only; thorough adds deep-recovery (2600 blocks ahead of the snapshot: recovery without undo data below target-2560). (iii) the known finding undo-file-keyed-by-height is assigned only with evidence (model predicts the observed state and raised its ghost flag there, or an undo file of a block that must be undone names another block); a child that reports no state must be a panic of the model too; the model's uninterrupted run must end in the real final state with ghost flag 0 (oracle op final). Wide workloads (wide.go; judged by the property predicate on the real code; only the data-file roll-over workloads are ALSO compared with a Lean model - rolltie.go: the (data file, fpos, blen) of every index record after the uninterrupted run and at every second-crash capture == oracle op `roll`, Model/PersistRoll.lean, theorem dat_rollover_sound): (1) failed-reorg-then-idle: a side branch whose first block spends a non-existent output overtakes the tip while all its blocks are still in the block-write queue; the reorganisation fails, the queued blocks are dropped from the index, further valid blocks are queued behind them, then Idle + snapshot + Close; every vhook point is a crash point and the cleanly closed directory is re-opened by a fresh process (clean-restart identity: same tip, same UTXO dump, recovery loop is a no-op). (2) save-race: back-to-back snapshots under a pinned schedule - the file goroutine of snapshot S1 is held at a vhook point, a block is accepted, Idle starts S2 which parks behind S1's file, a further block is submitted from its own goroutine; if its commit reaches utxo.commit:after-commit while S2 is pending it is held there until S2 has walked the maps, then everything is released (histogram wide:save-race:window-reached / window-not-reached; with the code as written the commit waits for the pending snapshot and the window is not reached - a trivial case); every point is a crash point, in particular the renamed UTXO.db of S2. (3) data-file roll-over: BlockDBOpts.MaxDataFileSize = 520 bytes (generated: 340..900) in every process, so that a new data file starts every 1-3 blocks; Idle + complete snapshot after every block (second variant: clean Close + NewChainExt inside the history after every block); single crash at every point, and two-crash cases from EVERY block boundary (index record written / snapshot renamed = the directory of a clean shutdown): restart, feed every block without a snapshot, second crash at each index write, third process judged (histogram wide:rollover:first-restart-with-exactly-one-block-in-the-newest-data-file). In all fresh-process reports every block of the active chain is read back from the store and must hash to its index entry and equal the bytes submitted. Second-crash cases (crash at a blockdb.write:dat-written / idx-written point or with the index cut by one record -> fresh process recovers like the client, is fed every block with snapshots disabled, flushes -> second crash at each idx-written point and after Idle; thorough: at every point for the first data-written hit of each scripted workload -> third fresh process re-opens and is judged by the same predicate; not compared with the model). The known finding undo-file-keyed-by-height is only assigned when the captured directory really holds an undo/<h> file naming another block than the re-opened chain's block at h (a missing undo file or any other failure off-branch is reported under its own key). Exhaustive over the crash points of each workload: the harness installs a vhook callback that copies the data directory at EVERY vhook.Point hit (all point names x all hit counts) of the workloads {extend, save, abort-by-new-block (save paused after its first 64 KiB chunk, aborted by CommitBlockTxs, later one hurried), reorg-after-save, reorg-save-extend, reorg-before-any-save, seeded generated histories (canonical schedule, compared with the model), free-running variants, and an adversarial schedule holding block writes back while a snapshot is being written}; each copy is re-opened by a fresh process (client mode: NewChainExt(DoNotRescan) + do_the_blocks/LocalAcceptBlock loop; library mode: NewChainExt default) and must give: no panic, a tip the node knew, UTXO dump == independent replay of that tip's chain, final (tip, dump) after feeding the remaining blocks == the uninterrupted run, and the same again after a clean close + re-open. Plus every record-boundary (and mid-record) truncation of blockchain.new and prefix truncations of blockchain.dat after a clean close. The Lean model (Model/Persist.lean) is tied by (a) point-name sequence == labels of the model's effect list, (b) recovered/final (tip, coin set) at every crash point == model's recover(apply(take k effects))."
+	return "Prefix truncations with something appended behind the cut (torn.go): in directories whose snapshot lies BELOW the cut (the crash capture right after an index write with the most records above its snapshot - thorough: every such capture -, and the cleanly closed directory with UTXO.db replaced by UTXO.old) blockchain.new is cut at a record boundary and 1 / 55 / 135 bytes into a record, with and without a partial block left in the data file; a second process re-opens (load-positions tie incl. the file offset of the index handle), recovers, stores the missing blocks again, is shut down cleanly and re-opens; a third fresh process must come up in the final state. Undo-then-clean-shutdown workloads (miss4.go undoOnly): operator undo of n blocks right after a complete snapshot, nothing committed in between, clean shutdown; the client-mode restart (in-process and a fresh process) must come up at tip-n (asserted by block name), `NewChainExt{UndoBlocks:n}` must return n blocks lower and the next start must come up there. Older families: Round-4 pass (miss4.go; workloads of several kinds are in flight at a time: the fresh processes of one workload run while the next one is driven in-process, reports are judged in workload order): flag-rewrite workloads (the flag byte of an index record that is already ON DISK is rewritten: a side branch is stored aside, flushed by Chain.Idle and only then overtakes the tip - its records become trusted while the reorganisation applies them, or one of its blocks spends an output that does not exist and the records of the rest of the branch are flagged invalid; crossed with one / several data files (MaxDataFileSize 340..700), 1-3 further blocks stored behind the rewritten records, a clean shutdown + restart inside the history in library or client mode, 1-3 blocks appended by the restarted node, a second restart; every point a crash point) and close-relation workloads (a clean shutdown while the tip is another block of the SAME height as the block of UTXO.db - blocks undone by the operator, as many others accepted - or one higher on another branch - one more block, or a reorganisation while Idle may not save -, followed by a restart inside the history); after EVERY clean shutdown inside a history of any workload (ops restart = library mode, crestart = client mode incl. the recovery loop) the restarted node must be in exactly the state before the shutdown (key clean-restart-differs). Ties with Model/PersistIdx.lean (facts flagRewriteSource / invalidRecordAdvances / closeSaveGuard regenerated from setBlockFlag / LoadBlockIndex / UnspentDB.Close): index tie (between consecutive captures of every workload the index file changes by appended records and gained flag bits only == oracle op idx), load-positions tie (what the REAL LoadBlockIndex computed in every client-mode fresh process - append position, ipos and data file of every record, read through lib/chain/verif_export_c07.go - == the positions of the records in the captured file == the model's load), close tie (block and height before every clean shutdown inside a close-relation history and after the restart == oracle op closeg). Round-3 pass (miss3.go): operator-undo workloads (Chain.UndoLastBlock called directly, as the text-UI command `undo` and NewChainExt's -undo loop do: while a paced snapshot waits after its first chunk at the beginning of its walk, while none is active, at start-up between two clean shutdowns), stale-sibling workloads (blocks stored aside because they are not higher than the tip are on disk at every crash point and at clean shutdowns inside the history; every capture re-opened in client AND library mode; the library-mode process does 3 further clean Close + NewChainExt cycles before anything is fed; the closed directories are re-opened by fresh processes in both modes), the node process holds <datadir>/.lock through sys.LockDatabaseDir / UnlockDatabaseDir exactly like the client and every client-mode fresh process starts with the real LockDatabaseDir; snapshot-file tie (every UTXO.db / UTXO.old of every capture parsed independently: record count == header, txid set == replay of the header's block), library tie (oracle op libopen == library-mode fresh process) and lock tie (oracle op lock) with Model/PersistLib.lean whose parameters are regenerated from the source (go/cmd/gen_c07). Added after the audit: (i) truncations of UTXO.db after a clean close (inside the 48-byte header, right after it, inside and at the end of the record area; with and without UTXO.old) re-opened by a fresh process under a 20 s watchdog - NewUnspentDb must fall back to UTXO.old / start from genesis and the recovery loop must converge (fix eab07278: it hung with an intact header and a short record area); compared with the model's tearDb + restartFrom (oracle op torn, theorem torn_snapshot_reopens); a fall-back onto a snapshot of the abandoned branch is the known finding's window. (ii) bulk workload threshold-flush (bulk.go): 1024 blocks queued without an Idle so that BlockDB.BlockAdd flushes synchronously INSIDE Chain.CommitBlock (asserted: 1024 index records written between chain.commit:before-blockadd and :after-blockadd); crash points inside and after the flush are SAMPLED (not exhaustive), predicate only; thorough adds deep-recovery (2600 blocks ahead of the snapshot: recovery without undo data below target-2560). (iii) the known finding undo-file-keyed-by-height is assigned only with evidence (model predicts the observed state and raised its ghost flag there, or an undo file of a block that must be undone names another block); a child that reports no state must be a panic of the model too; the model's uninterrupted run must end in the real final state with ghost flag 0 (oracle op final). Wide workloads (wide.go; judged by the property predicate on the real code; only the data-file roll-over workloads are ALSO compared with a Lean model - rolltie.go: the (data file, fpos, blen) of every index record after the uninterrupted run and at every second-crash capture == oracle op `roll`, Model/PersistRoll.lean, theorem dat_rollover_sound): (1) failed-reorg-then-idle: a side branch whose first block spends a non-existent output overtakes the tip while all its blocks are still in the block-write queue; the reorganisation fails, the queued blocks are dropped from the index, further valid blocks are queued behind them, then Idle + snapshot + Close; every vhook point is a crash point and the cleanly closed directory is re-opened by a fresh process (clean-restart identity: same tip, same UTXO dump, recovery loop is a no-op). (2) save-race: back-to-back snapshots under a pinned schedule - the file goroutine of snapshot S1 is held at a vhook point, a block is accepted, Idle starts S2 which parks behind S1's file, a further block is submitted from its own goroutine; if its commit reaches utxo.commit:after-commit while S2 is pending it is held there until S2 has walked the maps, then everything is released (histogram wide:save-race:window-reached / window-not-reached; with the code as written the commit waits for the pending snapshot and the window is not reached - a trivial case); every point is a crash point, in particular the renamed UTXO.db of S2. (3) data-file roll-over: BlockDBOpts.MaxDataFileSize = 520 bytes (generated: 340..900) in every process, so that a new data file starts every 1-3 blocks; Idle + complete snapshot after every block (second variant: clean Close + NewChainExt inside the history after every block); single crash at every point, and two-crash cases from EVERY block boundary (index record written / snapshot renamed = the directory of a clean shutdown): restart, feed every block without a snapshot, second crash at each index write, third process judged (histogram wide:rollover:first-restart-with-exactly-one-block-in-the-newest-data-file). In all fresh-process reports every block of the active chain is read back from the store and must hash to its index entry and equal the bytes submitted. Second-crash cases (crash at a blockdb.write:dat-written / idx-written point or with the index cut by one record -> fresh process recovers like the client, is fed every block with snapshots disabled, flushes -> second crash at each idx-written point and after Idle; thorough: at every point for the first data-written hit of each scripted workload -> third fresh process re-opens and is judged by the same predicate; not compared with the model). The known finding undo-file-keyed-by-height is only assigned when the captured directory really holds an undo/<h> file naming another block than the re-opened chain's block at h (a missing undo file or any other failure off-branch is reported under its own key). Exhaustive over the crash points of each workload: the harness installs a vhook callback that copies the data directory at EVERY vhook.Point hit (all point names x all hit counts) of the workloads {extend, save, abort-by-new-block (save paused after its first 64 KiB chunk, aborted by CommitBlockTxs, later one hurried), reorg-after-save, reorg-save-extend, reorg-before-any-save, seeded generated histories (canonical schedule, compared with the model), free-running variants, and an adversarial schedule holding block writes back while a snapshot is being written}; each copy is re-opened by a fresh process (client mode: NewChainExt(DoNotRescan) + do_the_blocks/LocalAcceptBlock loop; library mode: NewChainExt default) and must give: no panic, a tip the node knew, UTXO dump == independent replay of that tip's chain, final (tip, dump) after feeding the remaining blocks == the uninterrupted run, and the same again after a clean close + re-open. Plus every record-boundary (and mid-record) truncation of blockchain.new and prefix truncations of blockchain.dat after a clean close. The Lean model (Model/Persist.lean) is tied by (a) point-name sequence == labels of the model's effect list, (b) recovered/final (tip, coin set) at every crash point == model's recover(apply(take k effects))."
 }
 
 func (h *Harness) run() {
@@ -149,12 +153,14 @@ type pending struct {
 	env                  []string
 	modes                []string
 	libx                 map[int]string
+	libWin               map[int]bool
 	lockHad              map[int]bool
 	idx                  map[int][]idxRecord // blockchain.new of every capture, read before any child touches it (miss4.go)
 	jobs                 []*job
 	s2                   []*s2case
 	deferred             []func() // violations found in phase A, emitted at the start of phase B
 	trunc                *truncSet
+	torn                 []*tornJob // torn.go
 	clean                *cleanJob
 	closed               []*closedJob
 	wg                   sync.WaitGroup // every fresh process started for this workload in phase A
@@ -234,6 +240,7 @@ func (h *Harness) phaseA(w Workload, only int, onlyMode string, onlySecond strin
 	h.snapFileTie(p)
 	// what the unchanged tail of NewChainExt does with each captured directory, computed from the files BEFORE any child touches them
 	p.libx = map[int]string{}
+	p.libWin = map[int]bool{}
 	p.lockHad = map[int]bool{}
 	p.idx = map[int][]idxRecord{}
 	for _, ht := range wr.Hits {
@@ -243,6 +250,7 @@ func (h *Harness) phaseA(w Workload, only int, onlyMode string, onlySecond strin
 			p.lockHad[ht.N] = v.lockHas
 			if len(p.modes) > 1 {
 				p.libx[ht.N] = h.libExpect(v)
+				p.libWin[ht.N] = h.undoWindow(dir, v.snap)
 			}
 			if w.Wide != "bulk" {
 				if recs, ok := readIdx(dir + "blockchain.new"); ok {
@@ -298,6 +306,7 @@ func (h *Harness) phaseA(w Workload, only int, onlyMode string, onlySecond strin
 	}
 	if only == 0 && w.Wide == "" && (r.Thorough() || r.Replay != "" || w.Name == "extend" || w.Name == "reorg-after-save" || w.Name == "gen0") {
 		h.truncStart(p)
+		h.tornStart(p)
 	}
 	return p
 }
@@ -329,6 +338,20 @@ func (h *Harness) phaseB(p *pending) bool {
 	h.wideCounters(w, wr)
 	h.idxTie(p)
 	h.closeTie(p)
+	// the state before every clean shutdown inside the history (after an operator undo: the block gone back to) and the state the
+	// restart came up in are states of the independent replay
+	for i, pr := range wr.Restarts {
+		for k, st := range pr {
+			if st == nil || (k == 1 && pr[0] == pr[1]) {
+				continue
+			}
+			r.Eval("restart-state/"+w.Shape, "")
+			if d := h.ref.dumpHash(st.Tip); d != st.Dump {
+				r.PropFail("clean-restart-inconsistent:"+w.Shape, fmt.Sprintf("workload %s, clean shutdown #%d inside the history (%s): %s, the independent replay of that block's chain gives dump %s", w.Name, i+1, []string{"state before the shutdown", "state after the restart"}[k], stateStr(st), d),
+					map[string]interface{}{"case": rep(0, "closed:none"), "ops": w.Ops})
+			}
+		}
+	}
 
 	// ---- tie (a): point names vs model labels; model queries are answered for this workload until the next load
 	modelOK := false
@@ -357,11 +380,11 @@ func (h *Harness) phaseB(p *pending) bool {
 		}
 		h.curLib = ""
 		if j.mode == "library" {
-			h.curLib = p.libx[j.hit.N]
+			h.curLib, h.curWin = p.libx[j.hit.N], p.libWin[j.hit.N]
 			r.Hit("library-tail-expected:" + h.curLib)
 		}
 		ok := h.judge(w, wr, j.hit, j.mode, j.res)
-		h.curLib = ""
+		h.curLib, h.curWin = "", false
 		if j.mode == "library" && modelOK {
 			h.libTie(w, wr, mdl, j.hit, j.res)
 		}
@@ -391,6 +414,7 @@ func (h *Harness) phaseB(p *pending) bool {
 		tm = mdl
 	}
 	h.truncations(p, tm)
+	h.tornJudge(p)
 	_, _, _, _ = onlySecond, blocksFile, only, onlyMode
 	return complete
 }
@@ -411,6 +435,9 @@ func (h *Harness) judge2(w Workload, wr *WlRun, ht Hit, mode string, c *ChildRes
 	r := h.r
 	rep := map[string]interface{}{"case": Case{Workload: w.Name, Hit: ht.N, Mode: mode, Second: second, Point: freePoint(w, ht, second), PIdx: ht.Idx}, "point": ht.Name, "hit_index": ht.Idx, "ops": w.Ops, "child": c, "expected_final": wr.Final}
 	where := fmt.Sprintf("workload %s, crash at %s#%d (point %d), %s re-open", w.Name, ht.Name, ht.Idx, ht.N, mode)
+	if h.caseOverride != nil {
+		rep["case"], where = *h.caseOverride, h.whereOverride
+	}
 	known := map[string]bool{h.base.Tip: true, h.ref.gen: true}
 	for i := 0; i < ht.NSub && i < len(wr.Names); i++ {
 		known[wr.Hash[wr.Names[i]]] = true
@@ -471,8 +498,11 @@ func (h *Harness) judge2(w Workload, wr *WlRun, ht Hit, mode string, c *ChildRes
 			if mv := h.curMV; mv != nil && mode == "client" && !mv.unsupported && !(mv.ambiguous && !mv.agrees) {
 				evidence = mv.agrees && mv.foreign
 				why = fmt.Sprintf("the model's prediction for this crash point is %q (agrees with the real states: %v, foreign undo file read: %v)", mv.rep, mv.agrees, mv.foreign)
-			} else if mode == "library" && h.curLib != "noop" && h.curLib != "parse" {
-				evidence = true // library mode is keyed above by its own panic message; the remaining library failures follow the shape test as before
+			} else if mode == "library" {
+				// observed on the captured directory BEFORE the library-mode process touched it (its NewChainExt re-applies blocks and
+				// rewrites undo files itself), or on the re-opened chain afterwards
+				evidence = h.curWin || h.foreignUndoReadTo(c, wr)
+				why = "no undo file under the snapshot's block names another block"
 			} else {
 				evidence = h.foreignUndoReadTo(c, wr)
 				why = "no block that the restart has to undo has an undo file naming another block"
@@ -1063,6 +1093,7 @@ type Model struct {
 	labels     []string
 	coinID     map[string]int // outpoint "txid:vout" -> model coin id
 	blockID    map[string]int // hash -> model block id
+	gen        string         // genesis (model block id 0)
 	idBlock    map[int]string
 }
 
@@ -1104,9 +1135,20 @@ func (h *Harness) blockTok(m *Model, raw []byte, next *int) string {
 	return fmt.Sprintf("b:%d:%d:%d:%s:%s", id, pid, rb.height, j(sp), j(cr))
 }
 
+// idOf: the model's id of a block; a block the model was never told about is -1 (no oracle reply contains it: a mismatch)
+func (m *Model) idOf(hash string) int {
+	if id, ok := m.blockID[hash]; ok {
+		return id
+	}
+	if hash == m.gen {
+		return 0
+	}
+	return -1
+}
+
 func (h *Harness) loadModel(w Workload, wr *WlRun) *Model {
 	r := h.r
-	m := &Model{coinID: map[string]int{}, blockID: map[string]int{}, idBlock: map[int]string{}}
+	m := &Model{coinID: map[string]int{}, blockID: map[string]int{}, idBlock: map[int]string{}, gen: h.ref.gen}
 	next := 0
 	var toks []string
 	// base: blocks, all submitted, one idle (no snapshot before: skip 0), close == what buildBase did
@@ -1169,7 +1211,7 @@ func (h *Harness) loadModel(w Workload, wr *WlRun) *Model {
 	// (= the hypothesis `(run bigs ops).foreign = false` of crash_consistent & co holds for this workload)
 	if wr.Final != nil {
 		fin := h.o.MustAsk("final")
-		want := fmt.Sprintf("ok %d %s 0", m.blockID[wr.Final.Tip], h.coinsToIDs(m, wr.Final))
+		want := fmt.Sprintf("ok %d %s 0", m.idOf(wr.Final.Tip), h.coinsToIDs(m, wr.Final))
 		if fin == want {
 			r.TieOK()
 			r.Hit("model-final-agrees-and-run-read-no-foreign-undo")
@@ -1259,7 +1301,7 @@ func (h *Harness) askModelQ(m *Model, k int, query string, c *ChildRes) *modelVe
 		mv.foreign = f[len(f)-1] == "1"
 	}
 	if c.S1 != nil && c.S2 != nil && c.S3 != nil {
-		mv.real = fmt.Sprintf("ok %d %d %s %d %s", m.blockID[c.S1.Tip], m.blockID[c.S2.Tip], h.coinsToIDs(m, c.S2), m.blockID[c.S3.Tip], h.coinsToIDs(m, c.S3))
+		mv.real = fmt.Sprintf("ok %d %d %s %d %s", m.idOf(c.S1.Tip), m.idOf(c.S2.Tip), h.coinsToIDs(m, c.S2), m.idOf(c.S3.Tip), h.coinsToIDs(m, c.S3))
 	} else {
 		mv.real = "panic"
 	}
